@@ -150,8 +150,10 @@ CLAIMED = {
                  "the relaxation alpha/(1+gamma*n) (statement kernel, per number of subsets): equals the full iteration (k-1)/num_subsets of "
                  "sub-iteration k for every sub-iteration that is not the last of its full iteration, whatever sub-iteration the run was started (resumed) at; for the last one it is n+1 (KNOWN FINDING, "
                  "reported on every run), never anything else; (c) BOUNDED (sequence length <= 6, not counted as proof): after "
-                 "threshold_min_to_small_positive_value every element of a NaN-free denominator is strictly positive. Not decided: the additive update "
-                 "formula (array expressions through virtual objective-function calls), the curvature, restart equivalence."),
+                 "threshold_min_to_small_positive_value every element of a NaN-free denominator is strictly positive. (d) the dataflow of the additive update for one voxel (statement kernel; float operations logged, not evaluated): "
+                 "numerator = gradient * num_subsets, divided once by the thresholded denominator (stored one, or precomputed + 2 * prior curvature computed at the first "
+                 "sub-iteration of a run or at every sub-iteration), times the relaxation, added to the image - each step once, in this order, nothing else. "
+                 "Not decided: the values of gradient, curvature and precomputed denominator (virtual objective-function calls), restart equivalence with a prior."),
         "note": ("trusted: cbmc 6.11.0 MiniSat; iterators are pointers into one float array; static facts are syntactic scans; the shape "
                  "alpha/(1+gamma*n) of the relaxation statement is matched by the extraction rule"),
     },
